@@ -115,7 +115,7 @@ class C43(Check):
                    "operands are kept inside the GMP-documented domain of each wrapped function (outside it GMP itself aborts)",
                    "the return value of probab_prime_p is only specified up to zero / non-zero",
                    "FLINT and Piranha are not installed: only gmp, gmpxx, boostmp are compared"]
-    tiers = {"quick": {"examples": 900}, "thorough": {"examples": 60000}}
+    tiers = {"quick": {"examples": 1800}, "thorough": {"examples": 40000}}
     timeout = 40.0
     case_timeout = 150
     min_nontrivial = 200
